@@ -21,6 +21,9 @@ import (
 type T1 struct {
 	F string `a:"to=1~2|a-F" b:"to=1~5|b-F"`
 	G int    `a:"le=9|a-G" b:"to=1~2|b-G"`
+	// unexported fields carrying rule tags are never validated - whether the type is analysed now or served from the cache
+	hidden string `a:"required|a-hidden" b:"required|b-hidden" valid:"required"`
+	skip   *T1    `a:"required" b:"exist"`
 }
 
 type T2 struct {
